@@ -5,9 +5,16 @@ use std::fmt::Debug;
 
 /// todo provide macro like [`std::thread_local`]
 /// A struct for coroutines handles local args.
+///
+/// Each entry keeps the address of the boxed value together with the function that drops it
+/// (the value type is erased), so the values still stored are released together with the owner.
 #[repr(C)]
 #[derive(Debug, Default)]
-pub struct CoroutineLocal<'c>(DashMap<&'c str, usize>);
+pub struct CoroutineLocal<'c>(DashMap<&'c str, (usize, unsafe fn(usize))>);
+
+unsafe fn drop_value<V>(ptr: usize) {
+    drop(unsafe { Box::from_raw((ptr as *mut c_void).cast::<V>()) });
+}
 
 #[allow(clippy::must_use_candidate)]
 impl<'c> CoroutineLocal<'c> {
@@ -15,15 +22,21 @@ impl<'c> CoroutineLocal<'c> {
     pub fn put<V>(&self, key: &'c str, val: V) -> Option<V> {
         let v = Box::leak(Box::new(val));
         self.0
-            .insert(key, std::ptr::from_mut(v) as usize)
-            .map(|ptr| unsafe { *Box::from_raw((ptr as *mut c_void).cast::<V>()) })
+            .insert(
+                key,
+                (
+                    std::ptr::from_mut(v) as usize,
+                    drop_value::<V> as unsafe fn(usize),
+                ),
+            )
+            .map(|(ptr, _)| unsafe { *Box::from_raw((ptr as *mut c_void).cast::<V>()) })
     }
 
     /// Get a value ref from the coroutine local.
     pub fn get<V>(&self, key: &'c str) -> Option<&V> {
         self.0
             .get(key)
-            .map(|ptr| unsafe { &*(*ptr as *mut c_void).cast::<V>() })
+            .map(|e| unsafe { &*(e.0 as *mut c_void).cast::<V>() })
     }
 
     /// Get a mut value ref from the coroutine local.
@@ -31,14 +44,22 @@ impl<'c> CoroutineLocal<'c> {
     pub fn get_mut<V>(&self, key: &'c str) -> Option<&mut V> {
         self.0
             .get(key)
-            .map(|ptr| unsafe { &mut *(*ptr as *mut c_void).cast::<V>() })
+            .map(|e| unsafe { &mut *(e.0 as *mut c_void).cast::<V>() })
     }
 
     /// Remove a key from the coroutine local.
     pub fn remove<V>(&self, key: &'c str) -> Option<V> {
         self.0
             .remove(key)
-            .map(|ptr| unsafe { *Box::from_raw((ptr.1 as *mut c_void).cast::<V>()) })
+            .map(|(_, (ptr, _))| unsafe { *Box::from_raw((ptr as *mut c_void).cast::<V>()) })
+    }
+}
+
+impl Drop for CoroutineLocal<'_> {
+    fn drop(&mut self) {
+        for (_, (ptr, drop_fn)) in std::mem::take(&mut self.0) {
+            unsafe { drop_fn(ptr) };
+        }
     }
 }
 
